@@ -19,6 +19,7 @@ expansion (2^64 expansions), and outside the builder's reach; the limits `u64::M
 themselves are generated (extreme-value stream of harness/src/searchprops.rs).
 -/
 import Compass.Gen.Decisions
+import Compass.Gen.Fns
 import Compass.Proofs.Num
 import Compass.Model.Instance
 import Compass.Proofs.SearchLimits
@@ -979,6 +980,37 @@ theorem src_term_runtime (limitNs freq baseNs perNs sz it : Nat) (hf : freq ≠ 
       (term_frequency.nat (it % freq) 0).bind fun due =>
         if due then term_runtime.nat (baseNs + perNs * it) limitNs else some false := by
   simp [TermM.fires, term_frequency, term_runtime, Rel.nat, hf]
+
+
+/-! ### Generated function bodies
+
+`tools/gen_fns.py` re-translates the body of the Rust function on every run into `Compass/Gen/Fns.lean`
+(`Gen.<Type>_<fn>`; conventions in the header of the tool).  Each `gen_*_eq` theorem below says that the
+generated definition *is* the hand-written model function the property theorems are about.  A source
+change to the function changes the generated definition and the proof stops checking (a body the
+translator no longer recognises is not emitted: the theorem no longer elaborates). -/
+
+mutual
+theorem gen_terminate_search_eq (m : TermM) (sz it : Nat) :
+    Gen.TerminationModel_terminate_search m sz it = m.fires sz it := by
+  cases m with
+  | runtime limitNs freq baseNs perNs => simp [Gen.TerminationModel_terminate_search, TermM.fires]
+  | size limit => simp [Gen.TerminationModel_terminate_search, TermM.fires]
+  | iters limit => simp [Gen.TerminationModel_terminate_search, TermM.fires]
+  | combined ms =>
+    simp only [Gen.TerminationModel_terminate_search, TermM.fires]
+    exact gen_terminate_search_fold_eq ms sz it false
+theorem gen_terminate_search_fold_eq (ms : List TermM) (sz it : Nat) (acc : Bool) :
+    Gen.TerminationModel_terminate_search_fold1 sz it ms acc = TermM.fires.firesList ms sz it acc := by
+  cases ms with
+  | nil => simp [Gen.TerminationModel_terminate_search_fold1, TermM.fires.firesList]
+  | cons m ms =>
+    simp only [Gen.TerminationModel_terminate_search_fold1, TermM.fires.firesList]
+    rw [gen_terminate_search_eq m sz it]
+    cases h : m.fires sz it with
+    | none => rfl
+    | some r => exact gen_terminate_search_fold_eq ms sz it (acc || r)
+end
 
 end C10
 end Compass
